@@ -33,6 +33,10 @@ use read_fonts::{
 /// Number of phantom points generated at the end of an outline.
 pub const PHANTOM_POINT_COUNT: usize = 4;
 
+/// Limit for the total number of components visited when loading one
+/// TrueType composite glyph.
+const GLYF_COMPOSITE_COMPONENT_LIMIT: usize = u16::MAX as usize;
+
 /// Scaler state for TrueType outlines.
 #[derive(Clone)]
 pub struct Outlines<'a> {
@@ -149,7 +153,8 @@ impl<'a> Outlines<'a> {
         };
         let glyph = self.loca.get_glyf(glyph_id, &self.glyf)?;
         if let Some(glyph) = glyph.as_ref() {
-            self.outline_rec(glyph, &mut outline, 0, 0)?;
+            let mut component_budget = GLYF_COMPOSITE_COMPONENT_LIMIT;
+            self.outline_rec(glyph, &mut outline, 0, 0, &mut component_budget)?;
         }
         outline.points += PHANTOM_POINT_COUNT;
         outline.max_stack = self.max_stack_elements as usize;
@@ -181,6 +186,7 @@ impl Outlines<'_> {
         outline: &mut Outline,
         component_depth: usize,
         recurse_depth: usize,
+        component_budget: &mut usize,
     ) -> Result<(), DrawError> {
         if recurse_depth > GLYF_COMPOSITE_RECURSION_LIMIT {
             return Err(DrawError::RecursionLimitExceeded(outline.glyph_id));
@@ -201,6 +207,11 @@ impl Outlines<'_> {
                 count += PHANTOM_POINT_COUNT;
                 let point_base = outline.points;
                 for (component, flags) in composite.component_glyphs_and_flags() {
+                    // The depth limit alone admits 2^depth component visits
+                    // when glyphs reference the same component repeatedly.
+                    *component_budget = component_budget
+                        .checked_sub(1)
+                        .ok_or(DrawError::RecursionLimitExceeded(outline.glyph_id))?;
                     outline.has_overlaps |= flags.contains(CompositeGlyphFlags::OVERLAP_COMPOUND);
                     let component_glyph = self.loca.get_glyf(component.into(), &self.glyf)?;
                     let Some(component_glyph) = component_glyph else {
@@ -211,6 +222,7 @@ impl Outlines<'_> {
                         outline,
                         component_depth + count,
                         recurse_depth + 1,
+                        component_budget,
                     )?;
                 }
                 let has_hinting = !instructions.unwrap_or_default().is_empty();
